@@ -445,6 +445,12 @@ class BooleanExpression(FilterExpression):
 
         if isinstance(expression, PrefixExpression):
             operand = self._canonical_string(expression.right, PRECEDENCE_PREFIX)
+            if (
+                isinstance(expression.right, InfixExpression)
+                and not expression.right.logical
+            ):
+                # `!` binds tighter than comparison and membership operators.
+                operand = f"({operand})"
             expr = f"!{operand}"
             return f"({expr})" if parent_precedence > PRECEDENCE_PREFIX else expr
 
